@@ -68,6 +68,16 @@ fn gen(ctx: &GenCtx, i: u64) -> Option<Run> {
                 let k = r.pick(&pool).clone();
                 rb.push(Op::BuilderOp { b, op: BOp::SetClaim(ClaimSpec::Native { key: k, val: gen_native(&mut r) }) });
             }
+            8 => {
+                let k = r.pick(&pool).clone();
+                let mut v = gen_json(&mut r, 2);
+                if let serde_json::Value::Object(o) = &v {
+                    if o.len() == 1 && o.contains_key(&k) {
+                        v = serde_json::json!([1]);
+                    }
+                }
+                rb.push(Op::BuilderOp { b, op: BOp::SetClaim(if r.chance(1, 2) { ClaimSpec::Bare { key: k, value: v } } else { ClaimSpec::CustomRef { key: k, value: v } }) });
+            }
             7 => {
                 // a value that looks like the claim's own {key: value} envelope, possibly twice
                 let k = r.pick(&pool).clone();
@@ -90,7 +100,19 @@ fn gen(ctx: &GenCtx, i: u64) -> Option<Run> {
     }
     let out = rb.msg();
     rb.push(Op::Build { b, key, out, entropy_seed: r.next(), entropy_fail: vec![], observe: false, now_ns: Ns(SENTINEL_NOW) });
-    let spec = VerifierSpec { proto, layer: if r.chance(1, 4) { Layer::Batteries } else { Layer::Generic }, key, footer, assertion, default_validators: false, expect: vec![], expect_via_extend: false, validators: vec![], hash_seed: r.next() };
+    // the reading parser: usually plain; sometimes with accepting validators on keys the token may or may
+    // not carry, sometimes PasetoParser::default() - none of which may alter the returned object
+    let vlayer = if r.chance(1, 3) { Layer::Batteries } else { Layer::Generic };
+    let mut validators = vec![];
+    if r.chance(1, 4) {
+        for k in ["zz_absent", "data"] {
+            validators.push(ValidatorSpec { claim: ClaimSpec::Custom { key: k.into(), value: serde_json::json!("") }, behaviour: crate::env::Behaviour::Accept, via: Via::Validate });
+        }
+        if r.chance(1, 2) {
+            validators.push(ValidatorSpec { claim: ClaimSpec::Custom { key: r.pick(&pool).clone(), value: serde_json::json!("") }, behaviour: crate::env::Behaviour::Accept, via: Via::Validate });
+        }
+    }
+    let spec = VerifierSpec { proto, layer: vlayer, key, footer, assertion, default_validators: vlayer == Layer::Batteries && r.chance(1, 2), expect: vec![], expect_via_extend: false, validators, hash_seed: r.next() };
     let v = rb.verifier(spec);
     rb.deliver(out, v, now + 1000);
     Some(rb.finish())
